@@ -28,8 +28,8 @@ CHECKS = {
   "technique": "Coq proof of the decision predicate + exhaustive-size differential sweep + mutation fuzzing (support)",
  },
  "C13": {
-  "text": "Theorems over the decision layer of CanRedirectToURL / CorsOriginAllowed / the generic CORS check: c13_decision (acceptance implies https, a real host, no opaque part, empty query, no '..' in the path, a configured domain that equals the host or is separated from it by a dot, and a pattern match when patterns are configured), c13_no_lookalike (a host that merely ends with the domain without a dot boundary never matches, for all strings), c13_own_hosts_match, c13_no_config, c13_cors. Correspondence: ~2200 (thorough 120000) adversarial URLs x 8 client configurations: the real validators vs the model in Coq on the components url.Parse delivers; GET /idp/oauth2/authorize end to end; independent WHATWG host extraction as oracle.",
-  "note": "Partial: that net/url and a browser agree on the host of the raw string is differential testing against the harness's WHATWG rules, not a theorem. Trusted: net/url, regexp in front of the model.",
+  "text": "Theorems over the decision layer of CanRedirectToURL / CorsOriginAllowed / the generic CORS check: c13_decision (acceptance implies https, a real host, no opaque part, empty query, no '..' in the path, a configured domain that equals the host or is separated from it by a dot, and a pattern match when patterns are configured), c13_no_lookalike (a host that merely ends with the domain without a dot boundary never matches, for all strings), c13_own_hosts_match, c13_no_config, c13_cors; layer B: a Gallina splitter for the conservative grammar https://host[:port][/path] with c13_split_sound / c13_split_complete (it returns exactly the parts of the raw string) and c13_plain_grammar (on that grammar acceptance means the bytes between https:// and the first ':' '/' or the end are a configured domain or a dot-separated subdomain). Correspondence: ~2200 (thorough 120000) adversarial URLs x 8 client configurations: the real validators vs the model in Coq on the components url.Parse delivers; GET /idp/oauth2/authorize end to end; independent WHATWG host extraction as oracle; net/url.Parse vs the splitter on 1000 (thorough 40000) members and near-misses of the conservative grammar.",
+  "note": "Partial: outside the conservative grammar (user-info, escapes, backslashes, case folding, control bytes) that net/url and a browser agree on the host of the raw string is differential testing against the harness's WHATWG rules, not a theorem. Trusted: net/url, regexp in front of the model.",
   "technique": "Coq proof of the decision layer over all strings + differential correspondence with WHATWG oracle",
  },
  "C18": {
